@@ -32,16 +32,23 @@ type txSpec struct {
 }
 
 type c15Store struct {
-	ops   []*operation.AnchoredOperation
-	puts  [][]int
-	cur   *txSpec
-	calls int
+	poison string // when the current transaction's store write is to fail: the suffix whose presence makes a Put fail
+	ops    []*operation.AnchoredOperation
+	puts   [][]int
+	cur    *txSpec
+	calls  int
 }
 
 func (s *c15Store) Put(ops []*operation.AnchoredOperation) error {
 	s.calls++
 	if s.cur != nil && !s.cur.putOK {
-		return errors.New("injected store failure")
+		// the store refuses one particular operation (the last of the transaction): an all-or-nothing write
+		// stores nothing, a write split into several calls would leave the earlier ones behind
+		for _, o := range ops {
+			if s.poison == "" || o.UniqueSuffix == s.poison {
+				return errors.New("injected store failure")
+			}
+		}
 	}
 	s.ops = append(s.ops, ops...)
 	return nil
@@ -69,6 +76,10 @@ func (p *c15Provider) GetTxnOperations(t *txn.SidetreeTxn) ([]*operation.Anchore
 	sp := p.specs[fmt.Sprintf("%d/%d", t.TransactionTime, t.TransactionNumber)]
 	p.store.cur, p.unpub.cur = sp, sp
 	ops, err := p.inner.GetTxnOperations(t)
+	p.store.poison = ""
+	if err == nil && len(ops) > 0 {
+		p.store.poison = ops[len(ops)-1].UniqueSuffix
+	}
 	if err == nil && sp != nil && sp.dup && len(ops) > 0 {
 		c := *ops[0]
 		ops = append(ops, &c, ops[len(ops)-1])
@@ -119,7 +130,7 @@ func runC15(c *ctx) error {
 		for k := 0; k < nt; k++ {
 			sp := &txSpec{putOK: true, delOK: true, nsOK: true, verOK: true}
 			sp.t = txn.SidetreeTxn{TransactionTime: uint64(100 + 10*k + e.rng.Intn(5)), TransactionNumber: uint64(k), Namespace: "did:sidetree",
-				ProtocolVersion: 0, CanonicalReference: fmt.Sprintf("canon%d-%d", i, k), EquivalentReferences: []string{fmt.Sprintf("eq%da", k), fmt.Sprintf("eq%db", k)}}
+				ProtocolVersion: uint64(e.rng.Intn(5)), CanonicalReference: fmt.Sprintf("canon%d-%d", i, k), EquivalentReferences: []string{fmt.Sprintf("eq%da", k), fmt.Sprintf("eq%db", k)}}
 			var ops []world.ClientOp
 			for len(ops) == 0 {
 				for _, o := range e.genBatch(4 + e.rng.Intn(8)) {
